@@ -125,3 +125,39 @@ Theorem C01_element_type_faithful : forall k sz be,
     h5_predef name = Some (k', sz', be') /\ k' = k /\ sz' = sz /\ (sz = 1 \/ be' = be).
 Proof. exact dtype_table_faithful. Qed.
 Print Assumptions C01_element_type_faithful.
+
+(* ---- the public API as a whole.  ANY history of rf_write and rf_write_blocks calls in any mix --
+   accepted, refused for going backwards, refused as malformed -- keeps the writer in the refinement
+   relation with the Spec obtained by folding the per-call Spec steps: the stored samples are exactly
+   those of the accepted calls at their indices (with the fill slots of the un-chunked continuous
+   layout), the files are in time order and the next available sample is the Spec cursor.
+   (api_arg_ok: the indices passed are not negative.)  Gapped mode: *)
+From DRF Require Import Model.PyWriter Proofs.PyWriterProofs Proofs.PyApiHistory.
+
+Theorem C01_api_history_gapped : forall c ops, vcfg c -> c_chunk c = true -> c_cont c = false ->
+  Forall api_arg_ok ops ->
+  PyInv (refines c) (fold_left (api_state c) ops py_init) (fold_left (api_spec_gapped c) ops spec_init).
+Proof. exact api_history_gapped. Qed.
+Print Assumptions C01_api_history_gapped.
+
+(* continuous mode without compression / checksums (un-chunked layout) *)
+Theorem C01_api_history_continuous_unchunked : forall c ops, vcfg c -> c_chunk c = false -> c_cont c = true ->
+  Forall api_arg_ok ops ->
+  PyInv (refines_u c) (fold_left (api_state c) ops py_init) (fold_left (api_spec_cont c) ops spec_init).
+Proof. exact api_history_continuous_unchunked. Qed.
+Print Assumptions C01_api_history_continuous_unchunked.
+
+(* continuous mode with compression or checksums (chunked layout) *)
+Theorem C01_api_history_continuous_chunked : forall c ops, vcfg c -> c_chunk c = true -> c_cont c = true ->
+  Forall api_arg_ok ops ->
+  PyInv (refines c) (fold_left (api_state c) ops py_init) (fold_left (api_spec_cont c) ops spec_init).
+Proof. exact api_history_continuous_chunked. Qed.
+Print Assumptions C01_api_history_continuous_chunked.
+
+Theorem C01_api_example :
+  let c := WriterCore.mkCfg 150000000003 100 1 1 100 false true in
+  let ops := [AWrite None [1; 2]; ABlocks [5; 20] [0; 2] [3; 4; 5]; AWrite (Some 1) [9]; AWrite (Some 30) [6]] in
+  Forall api_arg_ok ops /\
+  p_next (fold_left (api_state c) ops py_init) = 31 /\ p_written (fold_left (api_state c) ops py_init) = 6.
+Proof. exact api_example. Qed.
+Print Assumptions C01_api_example.
